@@ -29,7 +29,10 @@ RULE = ("histories = (a) one legacy grid: class in SingleGrid/MultiGrid/HexSingl
         "histories of up to 35 calls of place_agent (unplaced agent, in-grid), remove_agent, move_agent (integer targets: in grid, one "
         "wrap away, far away, beyond 2**64, own cell, an occupied cell), swap_pos (same cell, same agent, one/both unplaced), "
         "move_to_empty (incl. full grids), move_agent_to_one_of (random/closest/invalid selection, empty list with every handle_empty, "
-        "ties, out-of-grid offers), layer set_cell/set_cells/reads, interleaved with every reader: empties, empty_mask, is_cell_empty, "
+        "ties, out-of-grid offers, offers taken from select_cells), layer set_cell/set_cells/reads, read-only calls of the neighbouring "
+        "APIs that touch the same state (select_cells with every combination of conditions / extreme_values / masks / only_empty / "
+        "return_list, get_neighborhood_mask, PropertyLayer.select_cells / aggregate_property, repeated empty_mask reads - no-ops for the "
+        "model, the oracle requires every view and every layer unchanged), interleaved with every reader: empties, empty_mask, is_cell_empty, "
         "exists_empty_cells, grid[x], grid[x,y], grid[(x1,y1),...], grid[x,a:b], grid[a:b,y], grid[a:b,c:d] (None/negative/oversized/"
         "crossed bounds), iteration, coord_iter, agents, get/iter_cell_list_contents (lists with repeats, the bare-tuple form), torus_adj, "
         "torus_adj_2d; a third of the histories never read empties, a fifth read it first; a quarter hand coordinates over as NumPy "
@@ -173,8 +176,28 @@ def _gen_history(rng, cls, w, h, torus, n, length, mode, nlayers=0):
             if mode != "nobuild":
                 kinds += ["empties", "empties", "exists"]
             if nlayers:
-                kinds += ["lset", "lset", "lget", "lfill"]
+                kinds += ["lset", "lset", "lget", "lfill", "query", "query", "query", "move_sel"]
+            else:
+                kinds += ["query"]
             kd = rng.choice(kinds)
+            if kd == "query":
+                qk = rng.choice(["select", "select", "select", "nbmask", "layer", "empty_mask_twice"])
+                if qk == "select":
+                    q = ["select", rng.choice([0, 1, 1, 2]), rng.choice([None, None, "highest", "lowest"]), rng.choice([0, 0, 1, 2]),
+                         rng.random() < 0.6, rng.random() < 0.6, rng.randrange(3), rng.randint(-2, 3)]
+                elif qk == "nbmask":
+                    q = ["nbmask", rng.randrange(w), rng.randrange(h), rng.random() < 0.5, rng.random() < 0.5, rng.randint(1, 2)]
+                elif qk == "layer":
+                    q = ["layer", rng.randrange(3), rng.randint(-2, 3)]
+                else:
+                    q = ["empty_mask_twice"]
+                ops.append(["query", q])
+                continue
+            if kd == "move_sel":
+                if placed:
+                    ops.append(["move_sel", rng.choice(placed), rng.choice([0, 1]), rng.random() < 0.7, rng.choice(["random", "closest"]),
+                                rng.randrange(3), rng.randint(-1, 2)])
+                continue
 
             def bound(nn):
                 return rng.choice([None, None, rng.randint(-nn - 2, nn + 2)])
@@ -268,6 +291,14 @@ def _fixed_cases():
                 ["cell_list", [[2, 0]], True, "get"], ["cell_list", [[2, 0]], True, "iter"], ["cell_list", [[0, 1], [2, 0], [1, 1]], False, "get"],
                 ["cell_list", [[0, 1], [2, 0]], False, "iter"], ["cell_list", [], False, "get"],
                 ["lfill", 1, 4], ["move", 2, 0, 0], ["lget", 1, 1, 1], ["remove", 3], ["lset", 1, 0, 0, -2], ["mask"], ["coord_iter"]]))
+        # the neighbouring read-only APIs, every combination of select_cells' arguments, between mutators (2 layers)
+        qs = [["query", ["select", c, e, m, oe, rl, 0, 1]] for c in (0, 1, 2) for e in (None, "highest", "lowest") for m in (0, 1, 2)
+              for oe in (False, True) for rl in (True, False)]
+        for torus in (False, True):
+            out.append(_mk(cls, 3, 2, torus, 2, 3, [["place", 1, 0, 1], ["place", 2, 2, 0], ["lset", 0, 1, 1, 5], ["lset", 1, 0, 0, -3]] + qs[:54]
+                           + [["mask"], ["empties"], ["move", 1, 1, 1]] + qs[54:] + [["query", ["nbmask", 1, 1, True, False, 1]], ["query", ["layer", 0, 1]],
+                              ["query", ["empty_mask_twice"]], ["move_sel", 1, 1, True, "closest", 0, 0], ["move_sel", 2, 0, True, "random", 0, 0],
+                              ["move_sel", 1, 1, False, "closest", 1, -5], ["mask"], ["exists"], ["remove", 2], ["query", ["select", 1, None, 0, True, True, 0, 0]], ["mask"]]))
         # rejection-sampling branch of move_to_empty (needs > 31.5 empty cells of 36)
         out.append(_mk(cls, 6, 6, False, False, 2, [["place", 1, 2, 3], ["move_to_empty", 1], ["place", 2, 0, 0], ["move_to_empty", 2],
                                                     ["move_to_empty", 1], ["mask"]], rseed=3))
@@ -713,8 +744,75 @@ def run_impl(case):
     def occupied_by_other(c, aid):
         return any(p == c for b, p in shadow.items() if b != aid and p is not None)
 
+    def neighbour_query(q):
+        """read-only calls of the neighbouring APIs that touch the same state (property-layer selection, neighbourhood masks,
+        layer aggregates).  They are no-ops for C08: whatever they answer, every view and every layer must be as before."""
+        import numpy as np
+        what = q[0]
+        lname = (lambda j: f"layer{j % nl}") if nl else None
+        if what == "select":
+            _, cond, extreme, nmasks, only_empty, return_list, j, thr = q
+            kw = {"only_empty": bool(only_empty), "return_list": bool(return_list)}
+            if cond and nl:
+                kw["conditions"] = {lname(j): (lambda d, thr=thr: d >= thr)} if cond == 1 else \
+                    {lname(j): (lambda d, thr=thr: d >= thr), lname(j + 1): (lambda d, thr=thr: d <= thr + 3)}
+            if extreme and nl:
+                kw["extreme_values"] = {lname(j): extreme}
+            if nmasks:
+                m1 = np.zeros((w, h), dtype=bool)
+                m1[::2, :] = True
+                m2 = np.ones((w, h), dtype=bool)
+                m2[:, -1] = False
+                kw["masks"] = m1 if nmasks == 1 else [m1, m2]
+            out = g.select_cells(**kw)
+            if only_empty:
+                sel = [tuple(int(v) for v in c) for c in out] if return_list else [tuple(int(v) for v in c) for c in zip(*np.where(out))]
+                return [c for c in sel if g._grid[c[0]][c[1]] not in (None, [])]     # occupied cells selected as empty
+            return []
+        if what == "nbmask":
+            _, x, y, moore, ic, r = q
+            x, y = x % w, y % h
+            if "Hex" in name:
+                g.get_neighborhood_mask((x, y), bool(ic), r)
+            else:
+                g.get_neighborhood_mask((x, y), bool(moore), bool(ic), r)
+            return []
+        if what == "layer" and nl:
+            _, j, thr = q
+            layer = g.properties[lname(j)]
+            layer.select_cells(lambda d: d >= thr)
+            layer.select_cells(lambda d: d >= thr, return_list=False)
+            layer.aggregate_property(np.sum)
+            layer.aggregate_property(np.max)
+            return []
+        if what == "empty_mask_twice":
+            m = g.empty_mask
+            (m & g.empty_mask).any()
+            return []
+        return []
+
     for i, op in enumerate(case["ops"]):
         kind = op[0]
+        if kind == "move_sel":
+            # move_agent_to_one_of over the result of select_cells: the query first (a no-op), then the move with those offers
+            _, aid, cond, only_empty, selmode, j, thr = op
+            b4 = snapshot()
+            l4 = layers_now()
+            try:
+                import numpy as np  # noqa: F401
+                kw = {"only_empty": bool(only_empty)}
+                if cond and nl:
+                    kw["conditions"] = {f"layer{j % nl}": (lambda d, thr=thr: d >= thr)}
+                with warnings.catch_warnings():
+                    warnings.simplefilter("ignore")
+                    offers = [[int(c[0]), int(c[1])] for c in g.select_cells(**kw)][:6]
+            except Exception as e:  # noqa: BLE001
+                offers = []
+                fail(f"C08/{name}/select_cells/unexpected-exception", i, f"select_cells for {op} raised {type(e).__name__}: {e}")
+            if canon(snapshot()) != canon(b4) or layers_now() != l4:
+                fail(f"C08/{name}/select_cells/changed-the-grid", i, f"the query of {op} changed a view of the grid or a layer: {snapshot()} / before {b4}")
+            op = ["move_one_of", aid, offers, selmode, None]
+            kind = "move_one_of"
         mop = list(op)
         # ---- calls outside the quantifier are skipped (driver and model alike)
         skip = False
@@ -782,6 +880,17 @@ def run_impl(case):
                 res = [_enc(p) for p in sorted(tuple(p) for p in v)]
             elif kind == "mask":
                 m = g.empty_mask
+                res = [1 if m[c[0], c[1]] else 0 for c in cells]
+            elif kind == "query":
+                try:
+                    with warnings.catch_warnings():
+                        warnings.simplefilter("ignore")
+                        bad = neighbour_query(op[1])
+                except Exception:  # noqa: BLE001  what the query itself answers / rejects is C11's business
+                    bad = []
+                if bad:
+                    fail(f"C08/{name}/select_cells/occupied-cell-selected-as-empty", i, f"{op}: only_empty selection contains occupied cells {bad}")
+                m = g.empty_mask        # for the model this op is a read of empty_mask: the query itself is a no-op
                 res = [1 if m[c[0], c[1]] else 0 for c in cells]
             elif kind == "is_empty":
                 res = [1 if g.is_cell_empty(P((op[1], op[2]))) else 0]
@@ -1025,6 +1134,10 @@ def run_impl(case):
                 fail(f"C08/{name}/readers-disagree", i, f"after {op}: grid[x,y] {via_index}, iteration {via_iter}, coord_iter {via_coord}, agents {via_agents}, cells {raw_after}")
         except Exception as e:  # noqa: BLE001
             fail(f"C08/{name}/readers-disagree", i, f"after {op} a reader raised {type(e).__name__}: {e}")
+        if kind == "query" and canon(after) != canon(before):
+            changed = [k for k, x, y in zip(("pos", "cell contents", "empties", "empty_mask"), canon(before), canon(after)) if x != y]
+            fail(f"C08/{name}/{op[1][0]}/read-only-call-changed-the-grid", i,
+                 f"the read-only call {op[1]} changed {', '.join(changed)}: empty_mask before {before['mask']}, after {after['mask']}")
         # the property layers never interfere: they hold the last value written, whatever the grid did;
         # and a layer call leaves pos / contents / empties / mask alone
         if nl:
@@ -1220,6 +1333,10 @@ def _coq_op(op):
         return f"LayerOp (LFill {L.z(op[1])} {L.z(op[2])})"
     if k == "lget":
         return f"LayerOp (LGet {L.z(op[1])} {L.zpair((op[2], op[3]))})"
+    if k == "query":
+        return "ReadMask"
+    if k == "move_sel":     # only without the driver's rewrite (never for a model case)
+        return f"MoveToOneOf {L.z(op[1])} [] SelRandom HNone (0, 0)"
     if k == "is_empty":
         return f"IsCellEmpty {L.zpair((op[1], op[2]))}"
     if k == "index":
